@@ -453,7 +453,7 @@ func (tree *Rtree) searchIntersect(n *node, bb *geom.Bounds) []geom.Geom {
 // NearestNeighbor returns the closest object to the specified point.
 // Implemented per "Nearest Neighbor Queries" by Roussopoulos et al
 func (tree *Rtree) NearestNeighbor(p geom.Point) geom.Geom {
-	obj, _ := tree.nearestNeighbor(p, tree.root, math.MaxFloat64, nil)
+	obj, _ := tree.nearestNeighbor(p, tree.root, math.Inf(1), nil)
 	if obj == nil {
 		panic("rtree: nearest neighbor is nil, probably because point is outside of tree bounds")
 	}
@@ -491,17 +491,22 @@ func sortEntries(p geom.Point, entries []entry) ([]entry, []float64) {
 }
 
 func pruneEntries(p geom.Point, entries []entry, minDists []float64) []entry {
-	minMinMaxDist := math.MaxFloat64
+	minMinMaxDist := math.Inf(1)
+	bound := -1
 	for i := range entries {
-		minMaxDist := minMaxDist(p, entries[i].bb)
+		minMaxDist := minMaxDistance(p, entries[i].bb)
 		if minMaxDist < minMinMaxDist {
 			minMinMaxDist = minMaxDist
+			bound = i
 		}
 	}
-	// remove all entries with minDist > minMinMaxDist
+	// remove all entries with minDist > minMinMaxDist (minDists holds the
+	// squares, which overflow for far-away entries). The entry that gives the
+	// bound holds an object within it and is kept whatever the rounding of
+	// the two distances says.
 	pruned := []entry{}
 	for i := range entries {
-		if minDists[i] <= minMinMaxDist {
+		if i == bound || minDistance(p, entries[i].bb) <= minMinMaxDist {
 			pruned = append(pruned, entries[i])
 		}
 	}
@@ -512,7 +517,7 @@ func (tree *Rtree) nearestNeighbor(p geom.Point, n *node, d float64,
 	nearest geom.Geom) (geom.Geom, float64) {
 	if n.leaf {
 		for _, e := range n.entries {
-			dist := math.Sqrt(minDist(p, e.bb))
+			dist := minDistance(p, e.bb)
 			if dist < d {
 				d = dist
 				nearest = e.obj
@@ -536,7 +541,7 @@ func (tree *Rtree) NearestNeighbors(k int, p geom.Point) []geom.Geom {
 	dists := make([]float64, k)
 	objs := make([]geom.Geom, k)
 	for i := 0; i < k; i++ {
-		dists[i] = math.MaxFloat64
+		dists[i] = math.Inf(1)
 		objs[i] = nil
 	}
 	objs, _ = tree.nearestNeighbors(k, p, tree.root, dists, objs)
@@ -573,7 +578,7 @@ func (tree *Rtree) nearestNeighbors(k int, p geom.Point, n *node,
 	dists []float64, nearest []geom.Geom) ([]geom.Geom, []float64) {
 	if n.leaf {
 		for _, e := range n.entries {
-			dist := math.Sqrt(minDist(p, e.bb))
+			dist := minDistance(p, e.bb)
 			dists, nearest = insertNearest(k, dists, nearest, dist, e.obj)
 		}
 	} else {
@@ -586,7 +591,7 @@ func (tree *Rtree) nearestNeighbors(k int, p geom.Point, n *node,
 		for _, e := range branches {
 			// A branch can be skipped if nothing in it can be closer than
 			// the k-th nearest object found so far.
-			if k > 0 && math.Sqrt(minDist(p, e.bb)) > dists[k-1] {
+			if k > 0 && minDistance(p, e.bb) > dists[k-1] {
 				continue
 			}
 			nearest, dists = tree.nearestNeighbors(k, p, e.child, dists, nearest)
